@@ -171,13 +171,14 @@ func vBackoffRun(c grpcbackoff.Config, cfg []int64, ops [][]int64, pacing bool) 
 			time.Sleep(time.Duration(op[1]))
 			obs = append(obs, pobs())
 		case len(op) == 1 && op[0] == 4:
+			// also while a dial is in flight: the real code then only zeroes backoffIdx
+			cc.ResetConnectBackoff()
+			tags["reset"] = true
 			p.mu.Lock()
-			busy := p.inflight > 0
-			p.mu.Unlock()
-			if !busy { // skipped while a dial is in flight (as in the model)
-				cc.ResetConnectBackoff()
-				tags["reset"] = true
+			if p.inflight > 0 {
+				tags["reset-in-flight"] = true
 			}
+			p.mu.Unlock()
 			obs = append(obs, pobs())
 		case len(op) == 2 && op[0] == 7 && op[1] >= 0:
 			p.mu.Lock()
@@ -234,7 +235,7 @@ func vBackoffExec(cfg []int64, ops [][]int64) ([][]int64, bool, []string) {
 		obs, nd, tg = vBackoffRun(c, cfg, ops, false)
 	}
 	var tags []string
-	for _, k := range []string{"saturated", "negative", "reset", "drop", "slowfail"} {
+	for _, k := range []string{"saturated", "negative", "reset", "reset-in-flight", "drop", "slowfail"} {
 		if tg[k] {
 			tags = append(tags, k)
 		}
@@ -325,7 +326,7 @@ func vBackoffGen(r *vRand, tier string, idx int) ([]int64, [][]int64) {
 			mult = 1.6
 		}
 		cfg := []int64{500000000, vBackoffF(mult), 0, 20000000000}
-		ops := [][]int64{{7, 350000000}, {6}, {3, 400000000}, {3, 5000000000}, {7, 2500000000}, {3, 9000000000},
+		ops := [][]int64{{7, 350000000}, {6}, {3, 100000000}, {4}, {3, 300000000}, {3, 5000000000}, {4}, {3, 200000000}, {4}, {3, 3000000000}, {7, 2500000000}, {3, 9000000000},
 			{4}, {3, 3000000000}, {7, 500000000}, {3, 6000000000}, {2, 1}, {3, 25000000000}, {5}, {2, 0}, {6}, {3, 4000000000}, {4}, {3, 2000000000}}
 		return cfg, ops
 	}
